@@ -1,7 +1,8 @@
 (* Proofs/ComposeCodecC18.v — composition: the text-level re-serialisation theorem of C18 (Model/ParseText.v,
    Proofs/ParseTextP.v text_reserialize) with the Base58Check pair instantiated by C11's model.  C18's `text` is `list N`
    (code points) = C11's `pystr`: no conversion.
-     b58    := c11_a2b_hashed H   (parse_b58_hashed = parseable_str.parse_b58_double_sha256)
+     b58    := fun s => Ret (c11_a2b_hashed H s)   (the uncached decoder of Model/ParseText.v is outcome-valued since
+               parseable_str.cache is modelled there; C11's model of parse_b58_double_sha256 never raises)
      b58enc := c11_b2a_hashed H   (b2a_hashed_base58, which never raises)                                          *)
 From Coq Require Import List NArith ZArith String Bool.
 From Coq Require Import Strings.Byte.
@@ -12,12 +13,13 @@ Local Open Scope Z_scope.
 
 Section C18.
 Variable H : bytes -> bytes.
+Definition c11_dec (s : text) : outcome (option bytes) := Ret (c11_a2b_hashed H s).
 
 (* with C11's canonicity (any H): for addresses and WIF the serialiser's payload encodes to THE VERY TEXT that was parsed *)
 Theorem compose_reserialize_same_text : forall mulG net (s : text) o,
-  (p2pkh (c11_a2b_hashed H) net s = Ret (Some o) -> exists d, p2pkh_payload net o = Some d /\ c11_b2a_hashed H d = s) /\
-  (p2sh (c11_a2b_hashed H) net s = Ret (Some o) -> exists d, p2sh_payload net o = Some d /\ c11_b2a_hashed H d = s) /\
-  (wif (c11_a2b_hashed H) mulG net s = Ret (Some o) -> exists d, wif_payload net o = Some d /\ c11_b2a_hashed H d = s).
+  (p2pkh c11_dec net s = Ret (Some o) -> exists d, p2pkh_payload net o = Some d /\ c11_b2a_hashed H d = s) /\
+  (p2sh c11_dec net s = Ret (Some o) -> exists d, p2sh_payload net o = Some d /\ c11_b2a_hashed H d = s) /\
+  (wif c11_dec mulG net s = Ret (Some o) -> exists d, wif_payload net o = Some d /\ c11_b2a_hashed H d = s).
 Proof.
   intros mulG net s o. repeat split; intros P; apply via_b58_inv in P as (d & E & P); exists d;
     (split; [|exact (c11_hashed_canonical H s d E)]).
@@ -32,13 +34,13 @@ Lemma H_len4 : forall x, (4 <= length (H x))%nat.
 Proof. intros x. rewrite H_len. repeat constructor. Qed.
 
 Theorem compose_text_reserialize : forall mulG modsqrt net (s : text) o,
-  (p2pkh (c11_a2b_hashed H) net s = Ret (Some o) ->
-     exists d, p2pkh_payload net o = Some d /\ p2pkh (c11_a2b_hashed H) net (c11_b2a_hashed H d) = Ret (Some o)) /\
-  (p2sh (c11_a2b_hashed H) net s = Ret (Some o) ->
-     exists d, p2sh_payload net o = Some d /\ p2sh (c11_a2b_hashed H) net (c11_b2a_hashed H d) = Ret (Some o)) /\
-  (wif (c11_a2b_hashed H) mulG net s = Ret (Some o) ->
-     exists d, wif_payload net o = Some d /\ wif (c11_a2b_hashed H) mulG net (c11_b2a_hashed H d) = Ret (Some o)) /\
-  (forall kind, hd_prefixes_ok net kind -> hd_any (c11_a2b_hashed H) mulG modsqrt net kind s = Ret (Some o) ->
-     exists d, hd_payload net o = Some d /\ hd_any (c11_a2b_hashed H) mulG modsqrt net kind (c11_b2a_hashed H d) = Ret (Some o)).
-Proof. exact (text_reserialize (c11_a2b_hashed H) (c11_b2a_hashed H) (c11_hashed_roundtrip H H_len4)). Qed.
+  (p2pkh c11_dec net s = Ret (Some o) ->
+     exists d, p2pkh_payload net o = Some d /\ p2pkh c11_dec net (c11_b2a_hashed H d) = Ret (Some o)) /\
+  (p2sh c11_dec net s = Ret (Some o) ->
+     exists d, p2sh_payload net o = Some d /\ p2sh c11_dec net (c11_b2a_hashed H d) = Ret (Some o)) /\
+  (wif c11_dec mulG net s = Ret (Some o) ->
+     exists d, wif_payload net o = Some d /\ wif c11_dec mulG net (c11_b2a_hashed H d) = Ret (Some o)) /\
+  (forall kind, hd_prefixes_ok net kind -> hd_any c11_dec mulG modsqrt net kind s = Ret (Some o) ->
+     exists d, hd_payload net o = Some d /\ hd_any c11_dec mulG modsqrt net kind (c11_b2a_hashed H d) = Ret (Some o)).
+Proof. exact (text_reserialize c11_dec (c11_b2a_hashed H) (c11_hashed_roundtrip H H_len4)). Qed.
 End C18.
